@@ -823,6 +823,11 @@ func (w *World) mapperPtr() ai.Value {
 			}
 		}
 	}
+	// no entry takes the Mapper as its receiver (the loop reaches it only through another
+	// component): the machine still has exactly one
+	if os := w.ObjByType["memory.Mapper"]; len(os) == 1 {
+		return &ai.Ptr{Obj: os[0], Elem: os[0].T}
+	}
 	return nil
 }
 
